@@ -295,7 +295,7 @@ func c04Positive(k *fw.K, cfg c04Cfg) {
 var c04DevsAll = []string{"wrong-password", "wrong-password-other-type", "nonce-bitflip", "nonce-short", "nonce-long",
 	"mapkey-other-point", "mapkey-off-curve", "mapkey-infinity", "mapkey-echo", "mapkey-truncated", "mapkey-bitflip",
 	"kakey-other-point", "kakey-off-curve", "kakey-infinity", "kakey-echo", "kakey-truncated", "kakey-bitflip",
-	"token-bitflip", "token-swapped-roles", "token-truncated", "token-zero", "token-missing"}
+	"token-bitflip", "token-swapped-roles", "token-truncated", "token-zero", "token-missing", "reflection-attack"}
 var c04DevsCAM = []string{"ecad-bitflip", "ecad-bad-padding", "ecad-other-scalar", "ecad-missing", "ecad-short"}
 
 func c04ReplaceDO(resp []byte, tag byte, f func(val []byte) []byte) []byte {
@@ -331,12 +331,12 @@ func c04Negative(k *fw.K, cfg c04Cfg) {
 	ps := w.card.PACE
 	cv := w.curve
 	pw := w.pw
-	var lastTerminalKey []byte
 	w.card.Hook = func(ev *chipsim.Event) []byte {
-		if ev.Cmd != nil && ev.Cmd.INS == 0x86 {
+		if cfg.dev == "reflection-attack" && ev.Cmd != nil && ev.Cmd.INS == 0x86 && ev.Cmd.CLA&0x10 == 0 {
+			// ... and the terminal's own token: T_IC = MAC(K, PK_IFD) equals T_IFD = MAC(K, PK_IC) when PK_IC = PK_IFD
 			if dos, err := chipsim.ParseDOs(ev.Cmd.Data); err == nil && len(dos) == 1 {
-				if in, err := chipsim.ParseDOs(dos[0].Val); err == nil && len(in) == 1 && (in[0].Tag == 0x81 || in[0].Tag == 0x83) {
-					lastTerminalKey = append([]byte{}, in[0].Val...)
+				if in, err := chipsim.ParseDOs(dos[0].Val); err == nil && len(in) == 1 && in[0].Tag == 0x85 {
+					return append(chipsim.TLV(0x7C, chipsim.TLV(0x86, in[0].Val)), 0x90, 0x00)
 				}
 			}
 		}
@@ -361,7 +361,7 @@ func c04Negative(k *fw.K, cfg c04Cfg) {
 		case "infinity":
 			return func(v []byte) []byte { return []byte{0x00} }
 		case "echo":
-			return func(v []byte) []byte { return append([]byte{}, lastTerminalKey...) }
+			return func(v []byte) []byte { return append([]byte{}, ps.LastTerminalKey...) }
 		case "truncated":
 			return func(v []byte) []byte { return v[:len(v)-1] }
 		case "bitflip":
@@ -391,6 +391,10 @@ func c04Negative(k *fw.K, cfg c04Cfg) {
 		case "kakey-other-point", "kakey-off-curve", "kakey-infinity", "kakey-echo", "kakey-truncated", "kakey-bitflip":
 			if step == 3 {
 				return c04ReplaceDO(resp, 0x84, pointDev(cfg.dev[len("kakey-"):]))
+			}
+		case "reflection-attack":
+			if step == 3 { // no password needed: send the terminal's own agreement key back ...
+				return c04ReplaceDO(resp, 0x84, pointDev("echo"))
 			}
 		case "token-bitflip":
 			if step == 4 {
